@@ -12,7 +12,7 @@
 
    [explain] tells which of the two observations disagrees. *)
 From Coq Require Import List ZArith NArith Bool.
-From YV Require Import Cond.Syntax Cond.Sem Cond.RuleSet.
+From YV Require Import Cond.Syntax Cond.Sem Cond.Quirks Cond.RuleSet Cond.Machine Cond.Emit.
 Import ListNotations.
 
 Record case := mkCase {
@@ -42,10 +42,38 @@ Definition agrees (c : case) : bool :=
 Definition agrees_warm (c : case) : bool :=
   agrees_with (fun e => e) c (c_warm_all c) (c_warm_pub c).
 
+(* Architecture layer, executably: for every rule whose folded condition lies
+   in the fragment of Cond/Emit.v, the code emitted by the model of emit.rs,
+   run on the machine of Cond/Machine.v with the host functions of the scan,
+   computes the documented verdict (no trap, no stuck state, enough fuel).
+   EmitProofs.v proves this for all conditions of the proved fragment; here
+   it is evaluated on the generated ones. *)
+Definition machine_fuel : nat := 400000.
+Fixpoint machine_rules (data : list Z) (globals : list value) (rules : list rule) (acc : list bool) : bool :=
+  match rules with
+  | [] => true
+  | r :: t =>
+      let en := rule_env data globals acc r in
+      let v := holds en (r_cond r) in
+      let ir := prefold (r_cond r) in
+      (match tyof [] 0 ir with
+       | Some TBool =>
+           match run_condition data (e_pm en) (e_rules en) (e_globals en) machine_fuel ir with
+           | Some b => Bool.eqb b v
+           | None => false
+           end
+       | _ => true
+       end) && machine_rules data globals t (acc ++ [v])
+  end.
+Definition machine_agrees (c : case) : bool := machine_rules (c_data c) (c_globals c) (c_rules c) [].
+(* how many conditions of the case are in the fragment (reported by the check) *)
+Definition in_fragment (c : case) : list bool :=
+  map (fun r => match tyof [] 0 (prefold (r_cond r)) with Some TBool => true | _ => false end) (c_rules c).
+
 (* the documented meaning predicts the observation, and also the observation
    made with the pattern search forced up-front (regression assert for the
    skipped lazy search repaired by commit e5009a16: both runs must agree) *)
-Definition check_case (c : case) : bool := agrees c && agrees_warm c.
+Definition check_case (c : case) : bool := agrees c && agrees_warm c && machine_agrees c.
 Definition spec_case (c : case) : bool := check_case c.
 
 (* 0: both observations are predicted;
@@ -55,6 +83,7 @@ Definition spec_case (c : case) : bool := check_case c.
    255: neither *)
 Definition explain (c : case) : N :=
   if check_case c then 0%N
+  else if agrees c && agrees_warm c then 9%N   (* only the emitted-code model disagrees with Sem.v *)
   else if agrees_warm c then 5%N
   else if agrees c then 8%N
   else 255%N.
